@@ -222,7 +222,7 @@ impl Sys for C08 {
 }
 
 pub fn run(ctx: &Ctx) -> Result<Run, String> {
-    let depth = ctx.tier.pick(4, 6);
+    let depth = ctx.tier.pick(4, 8);
     let out = graph::bfs(&C08 { depth }, ctx.threads);
     let mut run = Run::from_stats(
         "model_checking",
